@@ -61,6 +61,9 @@ func schedRun(args []string) error {
 		for i, b := range []int{1, 40, 150} {
 			rn.RunPipe(i+1, b)
 		}
+		for i, v := range []string{"zeroElection", "paramsAgain", "twoFields"} {
+			rn.RunBlocked(i+1, v)
+		}
 	}
 	fmt.Printf("{\"walks\":%d,\"steps\":%d,\"events\":%d,\"stalls\":%d,\"unclean\":%d,\"skipped\":%d}\n", rn.Walks, rn.Steps, sink.N, rn.Stalls, unclean, skipped)
 	return nil
